@@ -405,6 +405,42 @@ func runC03(r *Run) {
 		}
 		r.atLeast("searches in findGreedyParamLen", locs, 1)
 	})
+
+	r.rule("R5", "PartCount counts occurrences the way the matcher does: the parser adds strings.Count(later constant, ComparePart), the matcher compares with strings.Count(path, ComparePart) (E5)", func() {
+		f := r.Fn("", "addParameterMetaInfo")
+		isCount := func(hay, needle string) func(v ssa.Value) bool {
+			return func(v ssa.Value) bool {
+				c, ok := v.(*ssa.Call)
+				if !ok || calleeName(&c.Call) != "strings.Count" {
+					return false
+				}
+				okHay := hay == "" || loadOfField(c.Call.Args[0], hay)
+				return okHay && loadOfField(c.Call.Args[1], needle)
+			}
+		}
+		n := 0
+		for _, fr := range fieldRefs(f) {
+			if !fr.Write || fr.Name != "routeSegment.PartCount" || fr.Val == nil {
+				continue
+			}
+			if k, isC := constInt(asConst(fr.Val)); isC && k == 0 {
+				continue
+			}
+			n++
+			r.check(dependsOn(fr.Val, isCount("routeSegment.Const", "routeSegment.ComparePart")) != nil, fmt.Sprintf("addParameterMetaInfo:PartCount#%d:counts-occurrences", n), r.pos(fr.Instr),
+				"PartCount accumulates strings.Count(Const, ComparePart)",
+				"PartCount is not the number of occurrences of the delimiter in the later constants (e.g. one per constant that contains it): the right-to-left search strips too few delimiters, a greedy parameter swallows the next value and a legal path does not match")
+		}
+		r.atLeast("PartCount updates", n, 1)
+		m := r.Fn("", "findParamLen")
+		cm := 0
+		for _, c := range callsMatching(m, false, nameIs("strings.Count")) {
+			if loadOfField(c.Common.Args[1], "routeSegment.ComparePart") {
+				cm++
+			}
+		}
+		r.check(cm >= 1, "findParamLen:counts-occurrences", r.fpos(m), "the matcher counts occurrences of ComparePart in the rest of the path", "the matcher no longer counts occurrences of ComparePart")
+	})
 }
 
 // byteSetVars evaluates package-level `[]byte{...}` / `append([]byte{...}, other...)` initialisers.
